@@ -32,6 +32,9 @@ structure Shadow where
   stage   : Nat := 0
   nextNum : Nat := 1
   types   : List (Nat × String) := []      -- allocator index ↦ hex of alloc_name(), as the real object answered
+  curNew  : Nat := 0                       -- current allocators of the three families (setCurrent…Allocator)
+  curArr  : Nat := 1
+  curMal  : Nat := 2
 deriving Inhabited
 
 /-- which records a period query sees, as documented: `all` everything, `disabled`/`checking` the records
@@ -75,6 +78,13 @@ def checkTotals (sh : Shadow) (obs : List (List String)) : Except String Unit :=
       throw s!"totals (all disabled enabled checking) are {got} but the outstanding blocks give {want}"
   | _ => throw "no totals line"
 
+/-- the current allocator of the family an overload form belongs to (`new…`/`del…`, `newa…`/`dela…`, `malloc`/`free`),
+    whatever extra arguments the form takes -/
+def curOf (sh : Shadow) (form : String) : Nat :=
+  if form == "malloc" || form == "free" then sh.curMal
+  else if form.startsWith "newa" || form.startsWith "dela" then sh.curArr
+  else sh.curNew
+
 def newRec (sh : Shadow) (addr size : Nat) (file : String) (line : Nat) (ai : Nat) : Rec :=
   { addr := addr, num := sh.nextNum, size := size, file := file, line := line,
     type := (sh.types.lookup ai).getD "?", period := sh.period, stage := sh.stage }
@@ -96,6 +106,32 @@ def specStep (sh : Shadow) (o : Proto.Op) : Except String Shadow := do
         if isLive sh r then throw s!"environment: the allocator returned the live address {r}"
         pure { sh with live := newRec sh r (size.toNat?.getD 0) file (line.toNat?.getD 0) (ai.toNat?.getD 0) :: sh.live,
                        nextNum := sh.nextNum + 1 }
+    | ["gacq", form, size, file, line] => do
+      -- a block acquired through any form of an overload is held with the allocator kind of the form's family;
+      -- the forms without file/line are recorded at <unknown>:0
+      let some r := retOf obs | throw "gacq: no result"
+      if r == 0 then pure sh
+      else
+        if isLive sh r then throw s!"environment: the allocator returned the live address {r}"
+        let loc := form == "new_fi" || form == "new_fs" || form == "newa_fi" || form == "newa_fs" || form == "malloc"
+        pure { sh with live := newRec sh r (size.toNat?.getD 0) (if loc then file else "<unknown>")
+                                 (if loc then line.toNat?.getD 0 else 0) (curOf sh form) :: sh.live,
+                       nextNum := sh.nextNum + 1 }
+    | ["grel", _, addr, _, _] => do
+      let a := addr.toNat?.getD 0
+      if a == 0 then
+        if obs.any (fun l => l.head? == some "fail") then throw "releasing NULL was reported"
+        pure sh
+      else if isLive sh a then
+        if hasFail obs "nonallocated" then throw s!"releasing the outstanding block {a} was reported as non-allocated"
+        pure { sh with live := sh.live.filter (·.addr != a) }
+      else
+        if !hasFail obs "nonallocated" then throw s!"releasing {a}, which is not outstanding, was not reported as non-allocated"
+        pure sh
+    | ["setcur", "new", ai] => pure { sh with curNew := ai.toNat?.getD 0 }
+    | ["setcur", "newarray", ai] => pure { sh with curArr := ai.toNat?.getD 0 }
+    | ["setcur", "malloc", ai] => pure { sh with curMal := ai.toNat?.getD 0 }
+    | ["overloads", _] => pure sh
     | ["free", _, addr, _, _, _] => do
       let a := addr.toNat?.getD 0
       if a == 0 then
